@@ -311,3 +311,217 @@ def run_loops(clause):
     elif results:
         print('values (all configurations agree):', list(results.values())[0])
     _finish(bad, 'evaluable.compile loop generation')
+
+
+# ---- _pyast printer ------------------------------------------------------------------------------------------------------------
+# statement trees as plain data (shared by the contract and the replay):
+#   ('block', [children]) ('assign', l, r) ('exec', e) ('assert', e) ('raise', e)
+#   ('with', item, as_ or None, omit_if_body_is_empty, body) ('if', cond, body, else or None) ('for', var, iterable, body) ('comment', text, body)
+
+PRINTER_KINDS = ('with', 'with-as', 'with-omit', 'if', 'if-else', 'for', 'comment', 'comment-multiline', 'block')
+
+
+def _wrap(kind, body, n):
+    """a container of the given kind around the block `body`; expression names are numbered from n"""
+    e = lambda k: 'x%d_%d' % (n, k)
+    if kind == 'with':
+        return ('with', e(0), None, False, body)
+    if kind == 'with-as':
+        return ('with', e(0), e(1), False, body)
+    if kind == 'with-omit':
+        return ('with', e(0), e(1), True, body)
+    if kind == 'if':
+        return ('if', e(0), body, None)
+    if kind == 'if-else':
+        return ('if', e(0), body, ('block', [('exec', e(1)), ('assign', e(2), e(3))]))
+    if kind == 'for':
+        return ('for', e(0), e(1), body)
+    if kind == 'comment':
+        return ('comment', 'note %d' % n, body)
+    if kind == 'comment-multiline':
+        return ('comment', 'note %d\nsecond line' % n, body)
+    if kind == 'block':
+        return body
+    raise ValueError(kind)
+
+
+def printer_tree(name):
+    """the bounded family: 'K1>K2' = K2 nested in K1 with statements before, between and after; plus the special trees"""
+    if '>' in name:
+        k1, k2 = name.split('>')
+        inner = _wrap(k2, ('block', [('assign', 'a1', 'a2'), ('raise', 'a3')]), 2)
+        mid = _wrap(k1, ('block', [('exec', 'b1'), inner, ('assert', 'b2')]), 1)
+        return ('block', [('assign', 'c1', 'c2'), mid, ('exec', 'c3')])
+    empty = ('block', [])
+    special = {
+        'with-empty': ('block', [('exec', 'c1'), ('with', 'w', None, False, empty), ('exec', 'c2')]),
+        'with-as-empty': ('block', [('with', 'w', 'v', False, ('block', [empty]))]),
+        'with-omit-empty': ('block', [('exec', 'c1'), ('with', 'w', 'v', True, empty), ('exec', 'c2')]),
+        'if-empty-else': ('block', [('exec', 'c1'), ('if', 'c', empty, ('block', [('exec', 'd1'), ('exec', 'd2')])), ('exec', 'c2')]),
+        'if-empty-both': ('block', [('exec', 'c1'), ('if', 'c', empty, None), ('exec', 'c2')]),
+        'for-empty': ('block', [('exec', 'c1'), ('for', 'i', 'r', empty), ('exec', 'c2')]),
+        'comment-one-statement': ('block', [('exec', 'c1'), ('comment', 'note', ('exec', 'd1')), ('exec', 'c2')]),
+        'comment-one-block-statement': ('block', [('comment', 'note', ('block', [('assign', 'd1', 'd2')])), ('exec', 'c2')]),
+        'comment-on-with': ('block', [('comment', 'note', ('with', 'w', None, False, ('block', [('exec', 'd1')]))), ('exec', 'c2')]),
+        'comment-empty': ('block', [('exec', 'c1'), ('comment', 'note', empty), ('exec', 'c2')]),
+        'with-holding-only-an-empty-if': ('block', [('with', 'w', None, False, ('block', [('if', 'c', empty, None)])), ('exec', 'c2')]),
+        'with-omit-holding-only-an-empty-for': ('block', [('exec', 'c1'), ('with', 'w', 'v', True, ('block', [('for', 'i', 'r', empty)])), ('exec', 'c2')]),
+        'lock-pattern': ('block', [('with', 'lock_a', None, False, ('block', [('with', 'lock_b', None, False, ('block', [('exec', 'd1')]))])), ('if', 'c', ('block', [('with', 'lock_a', None, False, ('block', [('exec', 'd2')]))]), None), ('exec', 'c2')]),
+    }
+    return special[name]
+
+
+PRINTER_SPECIAL = ('with-empty', 'with-as-empty', 'with-omit-empty', 'if-empty-else', 'if-empty-both', 'for-empty', 'comment-one-statement', 'comment-one-block-statement',
+                   'comment-on-with', 'comment-empty', 'with-holding-only-an-empty-if', 'with-omit-holding-only-an-empty-for', 'lock-pattern')
+
+
+def printer_names():
+    return ['%s>%s' % (a, b) for a in PRINTER_KINDS for b in PRINTER_KINDS] + list(PRINTER_SPECIAL)
+
+
+def shape_of_tree(t):
+    """the statement tree a reader must see: containers that the docstrings of _pyast declare to print nothing (if/for with nothing
+    in them, with + omit_if_body_is_empty) are gone, comments are gone, an empty suite is []"""
+    k = t[0]
+    if k == 'block':
+        return [s for c in t[1] for s in shape_of_tree(c)]
+    if k in ('assign',):
+        return [('assign', t[1], t[2])]
+    if k in ('exec', 'assert', 'raise'):
+        return [(k, t[1])]
+    if k == 'with':
+        b = shape_of_tree(t[4])
+        return [] if (t[3] and not b) else [('with', t[1], t[2], b)]
+    if k == 'if':
+        b, e = shape_of_tree(t[2]), shape_of_tree(t[3]) if t[3] is not None else []
+        return [('if', t[1], b, e)] if (b or e) else []
+    if k == 'for':
+        b = shape_of_tree(t[3])
+        return [('for', t[1], t[2], b)] if b else []
+    if k == 'comment':
+        return shape_of_tree(t[2])
+    raise ValueError(k)
+
+
+def comments_of_tree(t):
+    k = t[0]
+    if k == 'block':
+        return [c for x in t[1] for c in comments_of_tree(x)]
+    if k == 'with':
+        return comments_of_tree(t[4]) if not (t[3] and not shape_of_tree(t[4])) else []
+    if k == 'if':
+        return (comments_of_tree(t[2]) + (comments_of_tree(t[3]) if t[3] is not None else [])) if shape_of_tree(t) else []
+    if k == 'for':
+        return comments_of_tree(t[3]) if shape_of_tree(t) else []
+    if k == 'comment':
+        return (t[1].split('\n') if shape_of_tree(t[2]) else []) + comments_of_tree(t[2])
+    return []
+
+
+def shape_of_text(text):
+    """what CPython's parser reads (pass statements dropped)"""
+    import ast
+    tree = ast.parse(text)
+
+    def name(e):
+        return None if e is None else ast.unparse(e)
+
+    def suite(stmts):
+        out = []
+        for st in stmts:
+            if isinstance(st, ast.Pass):
+                continue
+            elif isinstance(st, ast.Assign) and len(st.targets) == 1:
+                out.append(('assign', name(st.targets[0]), name(st.value)))
+            elif isinstance(st, ast.Expr):
+                out.append(('exec', name(st.value)))
+            elif isinstance(st, ast.Assert) and st.msg is None:
+                out.append(('assert', name(st.test)))
+            elif isinstance(st, ast.Raise) and st.cause is None:
+                out.append(('raise', name(st.exc)))
+            elif isinstance(st, ast.With) and len(st.items) == 1:
+                out.append(('with', name(st.items[0].context_expr), name(st.items[0].optional_vars), suite(st.body)))
+            elif isinstance(st, ast.If):
+                out.append(('if', name(st.test), suite(st.body), suite(st.orelse)))
+            elif isinstance(st, ast.For) and not st.orelse:
+                out.append(('for', name(st.target), name(st.iter), suite(st.body)))
+            else:
+                out.append(('unexpected', ast.dump(st)))
+        return out
+    return suite(tree.body)
+
+
+def comments_of_text(text):
+    import io, tokenize
+    return [t.string[1:].strip() for t in tokenize.generate_tokens(io.StringIO(text + '\n').readline) if t.type == tokenize.COMMENT]
+
+
+def printer_verdict(tree, lines):
+    """[(clause, ok, detail)] for the printed lines of `tree`"""
+    out = []
+    one = all(isinstance(l, str) and '\n' not in l for l in lines)
+    out.append(('every-yielded-line-is-one-line', one, ''))
+    text = '\n'.join(lines)
+    try:
+        got = shape_of_text(text)
+        err = ''
+    except SyntaxError as e:
+        got, err = None, repr(e)
+    out.append(('printed-text-is-valid-python', got is not None, err))
+    want = shape_of_tree(tree)
+    out.append(('cpython-reads-the-text-back-as-the-same-statement-tree', got == want, 'read back %r, tree %r' % (got, want)))
+    try:
+        cs = comments_of_text(text) if got is not None else None
+    except Exception as e:
+        cs = None
+    wantc = [c.strip() for c in comments_of_tree(tree)]
+    out.append(('comments-stay-comments', cs is not None and sorted(cs) == sorted(wantc), 'comments %r, expected %r' % (cs, wantc)))
+    return out
+
+
+def build_real(t):
+    from nutils import _pyast
+    V = _pyast.Variable
+    k = t[0]
+    if k == 'block':
+        return _pyast.Block([build_real(c) for c in t[1]])
+    if k == 'assign':
+        return _pyast.Assign(V(t[1]), V(t[2]))
+    if k == 'exec':
+        return _pyast.Exec(V(t[1]))
+    if k == 'assert':
+        return _pyast.Assert(V(t[1]))
+    if k == 'raise':
+        return _pyast.Raise(V(t[1]))
+    if k == 'with':
+        return _pyast.With(V(t[1]), build_real(t[4]), V(t[2]) if t[2] else None, t[3])
+    if k == 'if':
+        return _pyast.If(V(t[1]), build_real(t[2]), build_real(t[3]) if t[3] is not None else None)
+    if k == 'for':
+        return _pyast.ForLoop(V(t[1]), V(t[2]), build_real(t[3]))
+    if k == 'comment':
+        return _pyast.CommentBlock(t[1], build_real(t[2]))
+    raise ValueError(k)
+
+
+def run_printer(name, clause):
+    print('clause:', clause)
+    bad = []
+    for nm in [name] + [n for n in printer_names() if n != name]:
+        tree = printer_tree(nm)
+        try:
+            lines = list(build_real(tree).lines)
+        except Exception as e:
+            bad.append('%s: printing raised %r' % (nm, e))
+            continue
+        fails = ['%s (%s)' % (c, d) for c, ok, d in printer_verdict(tree, lines) if not ok]
+        if fails:
+            print('tree %s prints as:' % nm)
+            for l in lines:
+                print('    | ' + l)
+            bad.append('%s: %s' % (nm, '; '.join(fails)))
+        if bad and nm != name:
+            print('(found in the bounded family of trees, not the tree of the refuted obligation)')
+        if bad:
+            break
+    _finish(bad[:1], '_pyast statement printer')
